@@ -46,7 +46,9 @@ def run(tier, seed):
     rnd = random.Random(seed)
     fams = [('composite', fam.fam_composite()[seed % 5::5] if not th else fam.fam_composite()[::3]),
             ('orders', fam.fam_orders()[seed % 8::8] if not th else fam.fam_orders()[::3]),
-            ('structured', fam.fam_structured()[::3] if not th else fam.fam_structured())]
+            ('structured', fam.fam_structured()[::3] if not th else fam.fam_structured()),
+            # assets with different discount rates side by side: what one asset leaves on the shared grid must not reach the next, in any order
+            ('discount', [c for c in fam.fam_discount() if th or len({a.get('wacc', -1) for a in c['assets']}) > 1])]
     for tag, cfgs in fams:
         # ---- specification level: symmetry under permutation of assets and renaming of nodes
         perms = {}
@@ -112,5 +114,5 @@ def run(tier, seed):
         # traces under renamings (dispatch / DCF tables are found by the new names)
         common.code_to_spec(chk, cfgs, lambda c: [r for r in reals(c) if not r.struct][:2], tag=tag, chk_fields=(), solvers=('SCIPY',))
     chk.assumptions += ['names distinct; catalogue of adversarial renamings (digit-only, prefixes/suffixes of each other, containing the separators "__", "_internal_", " (")']
-    return chk.finish(rule='families (composite, order books, structured) x permutations of the asset list x 5 adversarial renamings of assets, nodes and the wrapper; '
+    return chk.finish(rule='families (composite, order books, structured, mixed discount rates) x permutations of the asset list x 5 adversarial renamings of assets, nodes and the wrapper; '
                            'symmetry of the specification checked by two TLC enumerations per configuration', exhaustive=False)
